@@ -87,6 +87,7 @@ int main(int argc, char ** argv) {
     ctl_init(W);
     g_myth_verif_hook = bar_hook;
   }
+  memset(&bar, 0x5a, sizeof bar);          /* an initialisation must not rely on zero-filled memory */
   myth_barrier_init(&bar, 0, N);
   if (!mode) {
     { char kind[32]; snprintf(kind, sizeof kind, "barrier %d", N); ctl_name_obj_kind(&bar, 1, kind); }
